@@ -192,3 +192,26 @@ m("C05", "deferred.py", "                new_coeffs += [(key1, value1 * value) f
 m("C08", "parser.py", 'Parser.regex(r"[a-z_0-9$.]+"', 'Parser.regex(r"[a-z_0-9$.]*"', "G13n")
 m("C08", "compiler.py", "old_addr_value = wait(old_addr)", "old_addr_value = old_addr", "G11")
 m("C08", "metacommands.py", "    return b\"\\x00\" * ((-wait(state[\"emit_address\"])) % count)", "    return b\"\\x00\" * ((-state[\"emit_address\"]) % count)", "G11")
+# ---- mutation rounds 5-6: argument contracts, spans, forced values
+m("C04", "insns.py", "value = wait(opcode_inline_value)", "value = opcode_inline_value", "G11.res")
+m("C03", "insns.py", "value = wait(opcode_inline_value)", "value = opcode_inline_value", "G11.res")
+m("C06", "metacommand_impl.py", 'cooked_operand = get_as_str(state, comment, state["insn"], operand)', 'cooked_operand = get_as_str(comment, state, state["insn"], operand)', "C06.R1c")
+m("C08", "metacommand_impl.py", 'cooked_operand = get_as_str(state, comment, state["insn"], operand)', 'cooked_operand = get_as_str(comment, state, state["insn"], operand)', "C06.R1c")
+m("C17", "parser.py", "types.Symbol(ctx_start, ctx_state_after_name, insn_name)", "types.Symbol(ctx_state_after_name, ctx_start, insn_name)", "C17.span")
+m("C17", "parser.py", "operator(lhs.ctx_start, ctx_end, lhs, rhs)", "operator(ctx_end, lhs.ctx_start, lhs, rhs)", "C17.span")
+m("C03", "types.py", "        return None, 0", "        return 0, None", "C03.R1u")
+m("C08", "types.py", "        return None, 0", "        return None,", "C03.R1u")
+m("C02", "compiler.py", "self.compile_word_list(insn, insn.words, state)", "self.compile_word_list(insn.words, insn, state)", "BLK.route")
+m("C06", "compiler.py", "self.compile_word_list(insn, insn.words, state)", "self.compile_word_list(insn.words, insn, state)", "BLK.route")
+m("C12", "compiler.py", "self.set_link_address(insn.value, state)", "self.set_link_address(state, insn.value)", "C12.R4")
+m("C13", "devices.py", "return open(path, mode)", "return open(mode, path)", "C13.R7d")
+m("C07", "reports.py", "self.nested_handler(priority, identifier, *reports)", "self.nested_handler(identifier, priority, *reports)", "C07.R5")
+m("C07", "_cli.py", "comp.emit_files(base, code)", "comp.emit_files(code, base)", "CLI")
+m("C13", "_cli.py", "comp.emit_files(base, code)", "comp.emit_files(code, base)", "CLI")
+m("C07", "_cli.py", 'choices=["graphical", "bare"]', 'choices=["bare"]', "CLI")
+m("C02", "metacommands.py", "parser.parse(include_path, code)", "parser.parse(code, include_path)", "C02.R6")
+m("C02", "metacommands.py", 'devices.resolve_relative_path(included_file_path, state["filename"])', 'devices.resolve_relative_path(state["filename"], included_file_path)', "C02.R6")
+m("C02", "metacommands.py", 'code = compiler.compile_include(file_ast, state["emit_address"])', 'code = compiler.compile_include(file_ast, state["rel_address"])', "C02.R6")
+m("C03", "deferred.py", "return self + (-rhs)", "return self - (-rhs)", "C03.R7")
+m("C06", "metacommand_impl.py", "def get_as_int(state, what, token, arg_token, bitness, unsigned, default=None):\n    value = wait(arg_token.resolve(state))", "def get_as_int(state, what, token, arg_token, bitness, unsigned, default=None):\n    value = arg_token.resolve(state)", "C06.R1")
+m("C01", "deferred.py", "if isinstance(rhs, LinearPolynomial):", "if isinstance(LinearPolynomial, rhs):", "C03.R7")
